@@ -57,6 +57,10 @@ type expOrigin struct {
 	// optional: lies in a declared don't-care zone of the constraint branch that
 	// expects it (completeness is not required, an origin there is fine)
 	optional bool
+	// forPart: a reference inside the key / value / condition of a for expression:
+	// not required everywhere (nested for expressions shadow names), but if the
+	// collection of the same for expression... see the uniqueness rule
+	forPart bool
 }
 
 type origModel struct {
@@ -198,9 +202,28 @@ func (m *origModel) anyExpr(e hclsyntax.Expression, want cty.Type, consKind stri
 	case *hclsyntax.ForExpr:
 		// the collection is a written reference; bodies use iterator variables (don't-care)
 		m.anyExpr(t.CollExpr, cty.DynamicPseudoType, consKind+">for", depth+1)
-		for _, sub := range []hclsyntax.Expression{t.KeyExpr, t.ValExpr, t.CondExpr} {
+		for si, sub := range []hclsyntax.Expression{t.KeyExpr, t.ValExpr, t.CondExpr} {
 			if sub != nil {
 				m.dontcare = append(m.dontcare, sub.Range())
+				// a plain traversal that is the whole key / value / condition operand and does
+				// not start at an iterator variable is a written reference like any other
+				// (only where the for expression is interpreted: an iterable expected type)
+				if want == cty.DynamicPseudoType || want.IsCollectionType() || want.IsTupleType() || want.IsObjectType() {
+					hclsyntax.VisitAll(sub, func(n hclsyntax.Node) hcl.Diagnostics {
+						st, ok := n.(*hclsyntax.ScopeTraversalExpr)
+						if !ok {
+							return nil
+						}
+						root := st.Traversal.RootName()
+						if root == t.KeyVar || root == t.ValVar {
+							return nil
+						}
+						if a, ok := travAddr(st.Traversal); ok {
+							m.expected = append(m.expected, expOrigin{addr: a, rng: st.Traversal.SourceRange(), where: fmt.Sprintf("ScopeTraversal|%s>for-%s|d%d", consKind, []string{"key", "value", "cond"}[si], depth), optional: true, forPart: true})
+						}
+						return nil
+					})
+				}
 			}
 		}
 	case *hclsyntax.IndexExpr:
@@ -493,6 +516,15 @@ func (p c10) check(unit int, rc Recipe, rep *runner.Reporter) {
 			}
 			if o.n > 1 {
 				rep.Violation(&runner.Witness{Sig: "ORIGINS duplicate " + simplifyWhere(x.where), What: fmt.Sprintf("%d origins for the one reference %s at %s", o.n, x.addr, fmtRange(x.rng)), Unit: unitJSON, Files: filesOf(ws)})
+			}
+		}
+		// uniqueness everywhere: one written reference, one origin (also in don't-care zones)
+		for rng, o := range observed {
+			if _, isExpected := expectedAt[rng]; isExpected && !expectedAt[rng].optional {
+				continue // reported above
+			}
+			if o.n > 1 {
+				rep.Violation(&runner.Witness{Sig: "ORIGINS duplicate elsewhere", What: fmt.Sprintf("%d origins with the address %s at the one place %s", o.n, o.addr, fmtRange(rng)), Unit: unitJSON, Files: filesOf(ws)})
 			}
 		}
 		// soundness
